@@ -75,6 +75,15 @@ var (
 		}
 		return int(v[0])
 	}}
+	// a value whose only varying byte lies behind the last full machine word
+	vsTail = &ValSpec[[11]byte]{Name: "[11]byte", Make: func(i int) [11]byte {
+		return [11]byte{1, 2, 3, 4, 5, 6, 7, 8, 9, 10, byte(i)}
+	}, Read: func(v [11]byte) int {
+		if v != [11]byte{1, 2, 3, 4, 5, 6, 7, 8, 9, 10, v[10]} {
+			return -1
+		}
+		return int(v[10])
+	}}
 	vsRich = &ValSpec[rich]{Name: "struct{ptr,string,slice}", Make: func(i int) rich {
 		return rich{p: vsPtr.Make(i), s: valString(i), b: []byte(valString(i))}
 	}, Read: func(r rich) int {
@@ -86,13 +95,86 @@ var (
 	}}
 )
 
+// value types of an uncomparable dynamic type behind `any` (comparing two of them as interfaces panics)
+var vsAny = &ValSpec[any]{Name: "any([]int)", Make: func(i int) any { return []int{i, i + 1} }, Read: func(v any) int {
+	s, ok := v.([]int)
+	if !ok || len(s) != 2 || s[1] != s[0]+1 {
+		return -1
+	}
+	return s[0]
+}}
+
+// ValueTypeUniverses: overwrite-rich closures (two values per key) with value types other than int, for the map
+// properties: byte slices, `any` holding a slice, a value whose varying byte lies behind its last full word, a pointer.
+func ValueTypeUniverses() []UniverseDef {
+	var out []UniverseDef
+	P := func(n int) string { return rep('p', n) }
+	alpha := AlphaSpec{Name: "VALTYPES", Free: []string{"k", "ka", P(11) + "1", P(11) + "2"}, NVals: 2, NoAutoP: true}
+	addAlpha := func(name string, mk func(spec *KeySpec[string], index map[string]int) Driver) {
+		out = append(out, UniverseDef{Name: "alpha[string]/VALTYPES/V=" + name, Build: func() *Universe {
+			u := NewAlphaUniverseD(alpha, "string", mk, nil)
+			u.Name += "/V=" + name
+			return u
+		}})
+	}
+	addAlpha(vsBytes.Name, func(spec *KeySpec[string], index map[string]int) Driver {
+		return NewDriverV[string, []byte](art.NewAlphaSortedTree[string, []byte](), spec, index, vsBytes)
+	})
+	addAlpha(vsAny.Name, func(spec *KeySpec[string], index map[string]int) Driver {
+		return NewDriverV[string, any](art.NewAlphaSortedTree[string, any](), spec, index, vsAny)
+	})
+	addAlpha(vsTail.Name, func(spec *KeySpec[string], index map[string]int) Driver {
+		return NewDriverV[string, [11]byte](art.NewAlphaSortedTree[string, [11]byte](), spec, index, vsTail)
+	})
+	fops := floatOps[float64](func(k float64) []byte { _, b := art.FloatBinaryKey[float64]{}.Transform(k); return b })
+	fsp := NumSpec[float64]{Name: "VALTYPES", Free: []float64{math.NaN(), -1.5, math.Copysign(0, -1), 0}, NVals: 2}
+	out = append(out, UniverseDef{Name: "float[float64]/VALTYPES/V=" + vsAny.Name, Build: func() *Universe {
+		u := NewNumUniverseD("float", "float64", fsp, fops, func(spec *KeySpec[float64], index map[string]int) Driver {
+			return NewDriverV[float64, any](art.NewFloatBinaryTree[float64, any](), spec, index, vsAny)
+		})
+		u.Name += "/V=" + vsAny.Name
+		return u
+	}})
+	iops := intOps[int16](func(k int16) []byte { _, b := art.SignedBinaryKey[int16]{}.Transform(k); return b })
+	isp := NumSpec[int16]{Name: "VALTYPES", Free: []int16{-256, -1, 0, 255}, NVals: 2}
+	out = append(out, UniverseDef{Name: "signed[int16]/VALTYPES/V=" + vsBytes.Name, Build: func() *Universe {
+		u := NewNumUniverseD("signed", "int16", isp, iops, func(spec *KeySpec[int16], index map[string]int) Driver {
+			return NewDriverV[int16, []byte](art.NewSignedBinaryTree[int16, []byte](), spec, index, vsBytes)
+		})
+		u.Name += "/V=" + vsBytes.Name
+		return u
+	}})
+	out = append(out, UniverseDef{Name: "signed[int16]/VALTYPES/V=" + vsTail.Name, Build: func() *Universe {
+		u := NewNumUniverseD("signed", "int16", isp, iops, func(spec *KeySpec[int16], index map[string]int) Driver {
+			return NewDriverV[int16, [11]byte](art.NewSignedBinaryTree[int16, [11]byte](), spec, index, vsTail)
+		})
+		u.Name += "/V=" + vsTail.Name
+		return u
+	}})
+	und := Collators()[0]
+	coll := CollSpec{Name: "VALTYPES", NVals: 2, Free: []string{"a", "A", "ab", rep('p', 16) + "x"}}
+	out = append(out, UniverseDef{Name: "collation[string,und]/VALTYPES/V=" + vsAny.Name, Build: func() *Universe {
+		u := NewCollUniverseD(coll, und, "string", false, func(spec *KeySpec[string], index map[string]int) Driver {
+			return NewDriverV[string, any](art.NewCollationSortedTree[string, any](), spec, index, vsAny)
+		})
+		u.Name += "/V=" + vsAny.Name
+		return u
+	}})
+	return out
+}
+
 // c18Kinds builds, for one value type, the universes of every tree kind.
 func c18Kinds[V any](vs *ValSpec[V], tier string) []UniverseDef {
 	var out []UniverseDef
 	P := func(n int) string { return rep('p', n) }
 	tag := "/V=" + vs.Name
 	keyOnly := vs.Name == "int" || vs.Name == "string"
-	alpha := AlphaSpec{Name: "GC5", Free: []string{"a", "ab", P(12) + "x", P(12) + "y", P(11) + "z"}, Probes: []string{P(12)}, NoAutoP: true, Prefixes: []string{"a", P(12)}}
+	nv := 2 // two values per key: overwriting a present key is a transition of its own
+	if vs.Name == "struct{}" {
+		nv = 1 // all values of the empty struct are one value
+	}
+	// two values per key: overwriting a present key is a transition of its own for every value type
+	alpha := AlphaSpec{Name: "GC5", Free: []string{"a", "ab", P(12) + "x", P(12) + "y"}, Probes: []string{P(12)}, NoAutoP: true, Prefixes: []string{"a", P(12)}, NVals: nv}
 	fan := FanUniverse(FanSpec{Name: "GCFAN48@14", Hold: 14, Extra: 3, Present: 2, Absent: 2})
 	fan.NoAutoP = true
 	// compressed paths far longer than a node (pointer arithmetic on the inline path must stay inside it)
@@ -126,7 +208,7 @@ func c18Kinds[V any](vs *ValSpec[V], tier string) []UniverseDef {
 		}
 	}
 	und := Collators()[0]
-	coll := CollSpec{Name: "GC5", Prefix: true, Free: []string{"a", "A", "ab", rep('p', 16) + "x", rep('p', 16) + "X"}, Probes: []string{"b"},
+	coll := CollSpec{Name: "GC5", Prefix: true, NVals: nv, Free: []string{"a", "A", rep('p', 16) + "x", rep('p', 16) + "X"}, Probes: []string{"b"},
 		Prefixes: []string{rep('p', 16), rep('p', 12), "a"}}
 	out = append(out, UniverseDef{Name: "collation[string,und]/GC5" + tag, Build: func() *Universe {
 		u := NewCollUniverseD(coll, und, "string", false, func(spec *KeySpec[string], index map[string]int) Driver {
@@ -137,7 +219,7 @@ func c18Kinds[V any](vs *ValSpec[V], tier string) []UniverseDef {
 	}})
 	uops := intOps[uint64](func(k uint64) []byte { _, b := art.UnsignedBinaryKey[uint64]{}.Transform(k); return b })
 	out = append(out, UniverseDef{Name: "unsigned[uint64]/GC5" + tag, Build: func() *Universe {
-		u := NewNumUniverseD("unsigned", "uint64", NumSpec[uint64]{Name: "GC5", Free: []uint64{0, 1, 1 << 40, 1<<40 + 1, math.MaxUint64}, Probes: []uint64{2}}, uops,
+		u := NewNumUniverseD("unsigned", "uint64", NumSpec[uint64]{Name: "GC5", Free: []uint64{0, 1, 1 << 40, 1<<40 + 1}, Probes: []uint64{2}, NVals: nv}, uops,
 			func(spec *KeySpec[uint64], index map[string]int) Driver {
 				return NewDriverV[uint64, V](art.NewUnsignedBinaryTree[uint64, V](), spec, index, vs)
 			})
@@ -221,7 +303,7 @@ func c18Kinds[V any](vs *ValSpec[V], tier string) []UniverseDef {
 	}
 	fops := floatOps[float64](func(k float64) []byte { _, b := art.FloatBinaryKey[float64]{}.Transform(k); return b })
 	out = append(out, UniverseDef{Name: "float[float64]/GC5" + tag, Build: func() *Universe {
-		u := NewNumUniverseD("float", "float64", NumSpec[float64]{Name: "GC5", Free: []float64{math.NaN(), -1.5, math.Copysign(0, -1), 0, math.Inf(1)}, Probes: []float64{1}}, fops,
+		u := NewNumUniverseD("float", "float64", NumSpec[float64]{Name: "GC5", Free: []float64{math.NaN(), -1.5, math.Copysign(0, -1), 0}, Probes: []float64{1}, NVals: nv}, fops,
 			func(spec *KeySpec[float64], index map[string]int) Driver {
 				return NewDriverV[float64, V](art.NewFloatBinaryTree[float64, V](), spec, index, vs)
 			})
@@ -265,6 +347,7 @@ func C18Registry(tier string) []UniverseDef {
 	out = append(out, c18Kinds(vsRich, tier)...)
 	out = append(out, c18Kinds(vsInt8, tier)...)
 	out = append(out, c18Kinds(vsTri, tier)...)
+	out = append(out, c18Kinds(vsTail, tier)...)
 	return out
 }
 
